@@ -28,9 +28,22 @@ func gapScenario(kind string, n int, batch bool) string {
 	defer sc.cl.Close()
 	g0, _ := hrpc.NewGet(context.Background(), []byte("t"), []byte("warm"))
 	sc.cl.Get(g0) // establish the region first
+	// PART:<class>: a batch of n+1 calls of which one more gets through in every round (the server
+	// throttles the rest): the call that is answered <class> n times must still see growing waits
+	partial := strings.HasPrefix(kind, "PART:")
+	kind = strings.TrimPrefix(kind, "PART:")
 	c.mu.Lock()
-	for i := 0; i < n; i++ {
-		r.faults = append(r.faults, kind)
+	if partial {
+		r.keyFaults = map[string][]string{}
+		for j := 0; j <= n; j++ {
+			for i := 0; i < j; i++ {
+				r.keyFaults[fmt.Sprintf("p%d", j)] = append(r.keyFaults[fmt.Sprintf("p%d", j)], kind)
+			}
+		}
+	} else {
+		for i := 0; i < n; i++ {
+			r.faults = append(r.faults, kind)
+		}
 	}
 	m0 := len(c.serves)
 	c.mu.Unlock()
@@ -39,7 +52,16 @@ func gapScenario(kind string, n int, batch bool) string {
 	defer cancel()
 	t0 := time.Now()
 	res := "ok"
-	if batch {
+	if partial {
+		var calls []hrpc.Call
+		for j := 0; j <= n; j++ {
+			g, _ := hrpc.NewGet(ctx, []byte("t"), []byte(fmt.Sprintf("p%d", j)))
+			calls = append(calls, g)
+		}
+		if _, ok := sc.cl.SendBatch(ctx, calls); !ok {
+			res = "failed"
+		}
+	} else if batch {
 		g1, _ := hrpc.NewGet(ctx, []byte("t"), []byte("k1"))
 		_, ok := sc.cl.SendBatch(ctx, []hrpc.Call{g1})
 		if !ok {
@@ -56,7 +78,7 @@ func gapScenario(kind string, n int, batch bool) string {
 	c.mu.Lock()
 	var atts []string
 	for _, s := range c.serves[m0:] {
-		if s.kind == "meta" {
+		if s.kind == "meta" || (partial && string(s.key) != fmt.Sprintf("p%d", n)) {
 			continue
 		}
 		atts = append(atts, fmt.Sprintf("%s.%s.%d", s.kind, s.outcome, s.at.Sub(t0).Microseconds()))
@@ -69,6 +91,9 @@ func gapScenario(kind string, n int, batch bool) string {
 	label := strings.Replace(kind, "REQ:", "req-", 1)
 	if len(r.bounce) > 0 {
 		label = "bounce-" + label
+	}
+	if partial {
+		label = "partial-" + label
 	}
 	return fmt.Sprintf("c17 gaps %s %s %d %s %s", api, label, n, res, strings.Join(atts, ";"))
 }
@@ -170,7 +195,7 @@ func runC17(tier string, seed uint64, out *Out) {
 	}
 	jobs := []job{{"retryable", false}, {"connErr", false}, {"nsre", false}, {"retryable", true}, {"connErr", true}, {"nsre", true},
 		{"REQ:connErr", false}, {"REQ:connErr", true}, {"REQ:nsre", true},
-		{"BOUNCE:REQ:connErr", false}, {"BOUNCE:REQ:connErr", true}}
+		{"BOUNCE:REQ:connErr", false}, {"BOUNCE:REQ:connErr", true}, {"PART:retryable", true}}
 	lines := make([]string, len(jobs))
 	var wg2 sync.WaitGroup
 	for i, j := range jobs {
